@@ -125,6 +125,28 @@ def F7a():
     return (exc is None and wire.startswith(b"HTTP/1.1 404") and attached and not closed and idle is not True), f"after the 404: stream still attached={attached}, connection closed={closed}, last idle report={idle}"
 
 
+def F7e():
+    """cleartext HTTP/2 by prior knowledge: h11 sees the preface as a request 'PRI *', reports the
+    connection busy, then the switch to HTTP/2 happens; with no stream opened nothing ever reports
+    it idle again, so the keep-alive timer the server stopped is never re-armed"""
+    import h2.config
+    import h2.connection
+
+    async def app(scope, receive, send):
+        pass
+
+    async def sc(h):
+        c = h2.connection.H2Connection(config=h2.config.H2Configuration(client_side=True))
+        c.initiate_connection()
+        await h.feed(c.data_to_send())
+        idle = h.idle
+        from hypercorn.events import Closed
+        await h.proto.handle(Closed())  # (lets the HTTP/2 send task finish)
+        return idle
+    h, r, exc = run_h1(app, sc)
+    return (exc is None and r is False), f"last idle report after the switch with no stream open: idle={r} (the server stops its keep-alive timer on idle=False)"
+
+
 SCENARIOS = {k: v for k, v in globals().items() if k.startswith("F") and callable(v)}
 
 if __name__ == "__main__":
